@@ -19,7 +19,7 @@ def idx(op, *ks):
     return syn(('_', op) + tuple(str(k) for k in ks))
 
 
-def make(rng, cls, exotic=0.0):
+def make(rng, cls, exotic=0.0, kind=None):
     """Returns (script text, the interesting term as T) for one instance accepted by mutator cls, or None."""
     g = Gen(rng, ['core', 'ints', 'reals', 'bv', 'strings', 'dt', 'arrays'], quant=True, exotic=exotic)
     g.declare(nvars=5)
@@ -191,7 +191,7 @@ def make(rng, cls, exotic=0.0):
         else:
             return None
         t = app('=', [call, g.term(call.sort, 0)], BOOL)
-    elif cls == 'LetSubstitution' and rng.random() < 0.6:
+    elif cls == 'LetSubstitution' and (kind is not None or rng.random() < 0.6):
         # binders that meet: a declared symbol v occurs in a bound term and is bound again (by the same let, by a let or a
         # quantifier inside the body), or the let-bound name itself is bound again inside the body
         vs = rng.choice([INT, BOOL, bv(4)])
@@ -213,7 +213,7 @@ def make(rng, cls, exotic=0.0):
         def let(bindings, body, so):
             return T(None, [syn('let'), T(None, [T(None, [syn(n_), t_], None, 'syntax') for n_, t_ in bindings], None, 'syntax'), body], so)
         use = app('=', [leaf(name, vs), leaf(v, vs)], BOOL)
-        k = rng.choice(['parallel', 'nested', 'shadow', 'quant', 'plain2'])
+        k = kind or rng.choice(['parallel', 'nested', 'shadow', 'quant', 'plain2'])
         if k == 'parallel':
             t = let([(name, mention(v)), (v, lit())], use, BOOL)
         elif k == 'nested':
